@@ -68,9 +68,37 @@ type Dump struct {
 
 type Options struct {
 	Versions   bool // include ListObjectVersions + per-version reads
+	KeepOrder  bool // keep the implementation's listing order of versions (default: canonical order)
 	NoChecksum bool // drop checksum maps (twin comparisons across different part structure)
 	// RawIDs, when non-nil, receives for every dumped version its raw id (same order as Versions).
 	RawIDs *[]string
+}
+
+// CanonVersions puts the versions of a bucket into an order that does not
+// depend on the listing order of the implementation (listing order is owned by
+// C06): by key, latest first, then by content-derived fields; non-null ids are
+// renumbered v0, v1, … in that order. Which raw id carries which content is
+// checked separately (C02 reads every version by the id its write returned).
+func CanonVersions(vs []Ver) {
+	key := func(v Ver) string {
+		l := "1"
+		if v.Latest {
+			l = "0"
+		}
+		n := "1"
+		if v.ID == "null" {
+			n = "0"
+		}
+		return fmt.Sprintf("%s\x00%s\x00%v\x00%s\x00%s\x00%d\x00%s\x00%s\x00%s\x00%s\x00%s", v.Key, l, v.Marker, n, v.BodySHA, v.Size, v.ETag, v.Class, v.Tags, v.Meta, v.CT)
+	}
+	sort.SliceStable(vs, func(i, j int) bool { return key(vs[i]) < key(vs[j]) })
+	n := 0
+	for i := range vs {
+		if vs[i].ID != "null" {
+			vs[i].ID = fmt.Sprintf("v%d", n)
+			n++
+		}
+	}
 }
 
 func (d *Dump) JSON() string {
@@ -273,6 +301,9 @@ func ofBucket(ctx context.Context, s storage.Storage, bn storage.BucketName, opt
 			}
 			keyMarker, vidMarker = res.NextKeyMarker, res.NextVersionIDMarker
 		}
+	}
+	if opt.Versions && !opt.KeepOrder {
+		CanonVersions(bd.Versions)
 	}
 	var keyMarker, uidMarker *string
 	for page := 0; page < 10000; page++ {
